@@ -150,38 +150,41 @@ theorem pipelined_after_select_delivered (c : Cfg) (s : RState) (pre ds post : L
   have hm := prescribed_mark c s0 f hn hu
   have hmk : markOf f = .establishes := by simp [markOf, hf]
   rw [hmk] at hm
-  refine ⟨if s0.st = .selected then 1 else 0, (prescribed c s0 f).1, (run c (prescribed c s0 f).1 post).2, ?_, hm.2, rfl⟩
+  refine ⟨if s0.st = .selected then 1 else 0, (prescribed c s0 f).1, (run c (prescribed c s0 f).1 post).2, ?_, hm.2.1, rfl⟩
   have e1 : pre ++ f :: ds ++ post = pre ++ ([f] ++ (ds ++ post)) := by simp
   rw [e1, run_append c pre, run_append c [f]]
   have hrun1 : run c s0 [f] = ((prescribed c s0 f).1, [([Out.ctrl f.session 0 (if s0.st = .selected then 1 else 0) 2 f.sys], Effect.none)]) := by
     simp [run, hstep]
   show (run c s pre).2 ++ ((run c s0 [f]).2 ++ (run c (run c s0 [f]).1 (ds ++ post)).2) = _
-  rw [hrun1, run_append c ds post, data_run_selected c ds _ hm.1 hm.2 hd]
+  rw [hrun1, run_append c ds post, data_run_selected c ds _ hm.1 hm.2.1 hd]
   simp
 
 /-- **Pipelined data behind Select.rsp (active / initiator path).** While our own Select.req is the only open
     transaction, a header-only Select.rsp with status 0 carrying its system bytes commits Selected on the receive
     step itself, so every data frame pipelined directly behind it is accepted, none rejected. -/
 theorem pipelined_after_select_rsp_delivered (c : Cfg) (s : RState) (ds : List Frame) (f : Frame) (x : Nat)
-    (ho : s.openSel = some x) (hoo : s.openOther = []) (hu : s.st ≠ .notConnected)
+    (ho : s.openSel = some x) (hoo : s.openOther = []) (hod : s.openData = []) (hu : s.st ≠ .notConnected)
     (hf : classOf f = .selectRsp) (hx : f.sys = x) (h0 : f.b3 = 0) (hd : ∀ d ∈ ds, classOf d = .data) :
-    run c s (f :: ds) =
-      (⟨.selected, none, []⟩, ([], Effect.none) :: ds.map (accepted c)) := by
+    ∃ s1, run c s (f :: ds) = (s1, ([], Effect.none) :: ds.map (accepted c)) ∧ s1.st = .selected ∧ NoTx s1 ∧
+      s1.t7 = (if s.st = .notSelected then false else s.t7) := by
   have htx : txOf s f.sys = .ownSelect := by simp [txOf, ho, hx]
-  have hstep : dispatch c s f = (⟨.selected, none, []⟩, [], .none) := by
+  have hstep : ∃ s1, dispatch c s f = (s1, [], .none) ∧ s1.st = .selected ∧ NoTx s1 ∧
+      s1.t7 = (if s.st = .notSelected then false else s.t7) := by
     rw [dispatch_eq_prescribed c s f hu]
     unfold prescribed
     simp only [hf, htx, h0, reduceIte]
     have hc : closeTx s f.sys = { s with openSel := none } := by simp [closeTx, htx]
     rw [hc]
-    obtain ⟨st, os, oo⟩ := s
-    simp only at hoo hu
-    subst hoo
-    cases st <;> simp_all [enterSelected]
+    obtain ⟨st, os, oo, od, t7⟩ := s
+    simp only at hoo hod hu
+    subst hoo hod
+    cases st <;> simp_all [enterSelected, NoTx]
+  obtain ⟨s1, hs1, hsel, hntx, ht7⟩ := hstep
+  refine ⟨s1, ?_, hsel, hntx, ht7⟩
   have e1 : f :: ds = [f] ++ ds := rfl
   rw [e1, run_append c [f] ds]
-  have hrun1 : run c s [f] = (⟨.selected, none, []⟩, [([], Effect.none)]) := by simp [run, hstep]
-  rw [hrun1, data_run_selected c ds ⟨.selected, none, []⟩ ⟨rfl, rfl⟩ rfl hd]
+  have hrun1 : run c s [f] = (s1, [([], Effect.none)]) := by simp [run, hs1]
+  rw [hrun1, data_run_selected c ds s1 hntx hsel hd]
   simp
 
 /-- What "accepted" means: the data message reaches the handlers (or, under session-id validation with a foreign
@@ -192,17 +195,15 @@ theorem accepted_is_not_reject (c : Cfg) (d : Frame) : ∀ o ∈ (accepted c d).
 
 /-! ## Non-vacuity -/
 
-def cfg0 : Cfg := ⟨false, 0xFFFF⟩
-def up : RState := ⟨.notSelected, none, []⟩
+def cfg0 : Cfg := ⟨false, 0xFFFF, true⟩
+def up : RState := ⟨.notSelected, none, [], [], true⟩
 def selReq : Frame := ⟨0xFFFF, 0, 0, 0, 1, 77, 0⟩
 def d1 : Frame := ⟨0xFFFF, 0x81, 1, 0, 0, 5, 3⟩
 def d2 : Frame := ⟨0xFFFF, 6, 11, 0, 0, 6, 0⟩
 
 example : classOf selReq = .selectReq ∧ classOf d1 = .data ∧ classOf d2 = .data := by decide
 example : NoTx (run cfg0 up [d1]).1 ∧ (run cfg0 up [d1]).1.st ≠ .notConnected := by
-  constructor
-  · constructor <;> decide
-  · decide
+  refine ⟨⟨by decide, by decide, by decide⟩, by decide⟩
 example : outs cfg0 up [d1, selReq, d1, d2] =
     [.ctrl 0xFFFF 0 4 7 5, .ctrl 0xFFFF 0 0 2 77, .deliver d1, .deliver d2] := by decide
 example : send ⟨true, true, 0, [], []⟩ .sync true .notSelected .selected 9 = (⟨true, true, 1, [], []⟩, .notSelected) := by
